@@ -50,6 +50,22 @@ HOSTS = {
 }
 
 
+# the same body again in a classmethod, a staticmethod and a regular method of the class: similar=True finds exact copies
+# of every region there, in a context with the same live variables
+SIBLINGS = ("class C:\n    k = 10\n\n    def f(self, p):\n        a = self.k - 10\n        b = 0\n%s\n        return (a, b)\n\n"
+            "    @classmethod\n    def g(cls, p):\n        a = 0\n        b = 0\n%s\n        return (a, b)\n\n"
+            "    @staticmethod\n    def h(p):\n        a = 0\n        b = 0\n%s\n        return (a, b)\n\n"
+            "    def r(self, p):\n        a = 0\n        b = 0\n%s\n        return (a, b)\n\n\n"
+            "for v in (0, 1, 2):\n    try:\n        print(C().f(v), C.g(v), C.h(v), C().r(v))\n    except Exception as e:\n"
+            "        print('NameError' if isinstance(e, NameError) else type(e).__name__)\n")
+HOSTS["siblings"] = (SIBLINGS, 8)
+# statements directly at module level (inside a loop over the inputs): the extracted function is a global one placed before the loop
+# statements directly in the module body, one host per input value (p is bound by a walrus in the prelude)
+for _v in (0, 1, 2):
+    HOSTS["flat%d" % _v] = ("a = 0\nb = 0 * (p := %d)\n%%s\nprint((a, b))\n" % _v, 0)
+HOSTS["module"] = ("for p in (0, 1, 2):\n    a = 0\n    b = 0\n%s\n    print((a, b))\n", 4)
+
+
 def indent(s, n):
     return "\n".join(" " * n + l for l in s.split("\n"))
 
@@ -57,7 +73,7 @@ def indent(s, n):
 def build(host, atom_ids):
     tmpl, ind = HOSTS[host]
     body = "\n".join(indent(ATOMS[i], ind) for i in atom_ids)
-    return tmpl % body
+    return tmpl % ((body,) * tmpl.count("%s"))
 
 
 def line_offsets(src):
@@ -76,6 +92,9 @@ def find_f(tree):
     for n in ast.walk(tree):
         if isinstance(n, ast.FunctionDef) and n.name == "f":
             return n
+    if isinstance(tree.body[0], ast.For):
+        return tree.body[0]     # module host: the loop over the inputs
+    return tree                 # flat host: the module body itself
 
 
 def stmt_lists(node):
@@ -135,22 +154,44 @@ def regions(src, atom_ids, host):
                 return False
         return True
 
+    in_f = {id(n) for n in ast.walk(f)}
+    in_any_function = {id(n) for fn in ast.walk(tree) if isinstance(fn, (ast.FunctionDef, ast.Lambda)) for n in ast.walk(fn)}
+    class_level_exprs = [x for c in ast.walk(tree) if isinstance(c, ast.ClassDef) for st in c.body if not isinstance(st, ast.FunctionDef)
+                         for x in ast.walk(st) if isinstance(x, ast.expr)]
     all_lists = list(stmt_lists(tree))
     all_exprs = [n for n in ast.walk(tree) if isinstance(n, ast.expr)]
 
     def twin(stmts):
+        """None / 'exact' (every other match is a textual copy of the region) / 'wild'"""
         k = len(stmts)
+        found = None
         for lst_ in all_lists:
             for i_ in range(len(lst_) - k + 1):
                 cand = lst_[i_:i_ + k]
                 if cand[0] is stmts[0]:
                     continue
                 if all(wild(a_, b_) for a_, b_ in zip(stmts, cand)):
-                    return True
-        return False
+                    if all(ast.dump(a_) == ast.dump(b_) for a_, b_ in zip(stmts, cand)):
+                        if id(cand[0]) in in_f:
+                            found = found if found == "wild" else "exact"
+                        else:
+                            found = found or "sibling"
+                    else:
+                        found = "wild"
+        return found
 
     def twin_expr(e):
-        return any(x is not e and wild(e, x) for x in all_exprs)
+        found = None
+        for x in all_exprs:
+            if x is not e and wild(e, x):
+                if ast.dump(x) == ast.dump(e):
+                    if id(x) in in_f:
+                        found = found if found == "wild" else "exact"
+                    else:
+                        found = found or "sibling"
+                else:
+                    found = "wild"
+        return found
 
     def top_index(stmt):
         for i, t in enumerate(top):
@@ -194,8 +235,25 @@ def regions(src, atom_ids, host):
                     if len(lst) == j - i + 1:
                         feats.append("region:whole-block")
                 feats.append("stmts:%d" % (j - i + 1))
-                if twin(lst[i:j + 1]):
+                if host == "module" or host.startswith("flat"):
+                    # module-level code: every variable is a global; does the region assign one that it also reads,
+                    # or that it assigns only on some paths / in a nested block?
+                    stored = {n.id for st in lst[i:j + 1] for n in ast.walk(st) if isinstance(n, ast.Name) and isinstance(n.ctx, ast.Store)}
+                    loaded = {n.id for st in lst[i:j + 1] for n in ast.walk(st) if isinstance(n, ast.Name) and isinstance(n.ctx, ast.Load)}
+                    loaded |= {st.target.id for st in lst[i:j + 1] for st in ast.walk(st) if isinstance(st, ast.AugAssign) and isinstance(st.target, ast.Name)}
+                    definite = set()
+                    for st in lst[i:j + 1]:
+                        if isinstance(st, ast.Assign):
+                            definite |= {n.id for t_ in st.targets for n in ast.walk(t_) if isinstance(n, ast.Name)}
+                    if stored & loaded or stored - definite:
+                        feats.append("module-level:assigns-a-global-it-reads-or-assigns-only-conditionally")
+                tw = twin(lst[i:j + 1])
+                if tw == "wild":
                     feats.append("similar:other-match-exists")
+                elif tw == "exact":
+                    feats.append("similar:only-exact-copies-exist")
+                elif tw == "sibling":
+                    feats.append("similar:only-copies-in-sibling-methods")
                 out.append(("stmts", start, end, feats))
     # expressions
     for t in top:
@@ -218,8 +276,15 @@ def regions(src, atom_ids, host):
                         for a in sorted(set(anc)):
                             if a in ("Lambda", "ListComp", "While", "For", "If", "BoolOp", "IfExp", "Try"):
                                 feats.append("expr-under:" + a)
-                        if twin_expr(v):
+                        if any(wild(v, x) for x in class_level_exprs):
+                            feats.append("similar:match-in-class-body")
+                        tw = twin_expr(v)
+                        if tw == "wild":
                             feats.append("similar:other-match-exists")
+                        elif tw == "exact":
+                            feats.append("similar:only-exact-copies-exist")
+                        elif tw == "sibling":
+                            feats.append("similar:only-copies-in-sibling-methods")
                         used = {n.id for n in ast.walk(v) if isinstance(n, ast.Name)}
                         for a in ast.walk(t):
                             if a is v or not any(c is v for c in ast.walk(a)):
@@ -241,7 +306,7 @@ def regions(src, atom_ids, host):
 class C03(Check):
     pid = "C03"
     level = "exploration"
-    rule = ("cases = host bodies: every sequence of n statement atoms (20 atoms) in a function host and a method host; "
+    rule = ("cases = host bodies: every sequence of n statement atoms (20 atoms) in a function host, a method host, a module-level host and a class whose classmethod/staticmethod/regular sibling methods repeat the body; "
             "evaluations = one refactoring request per (body, region, refactoring, options): regions = every contiguous statement "
             "run at every nesting level + every sub-expression; ExtractMethod x similar{F,T} x global_{F,T} (function host) / "
             "kind{None,staticmethod?} and ExtractVariable x similar{F,T} for expressions; each performed result is compiled and "
@@ -264,6 +329,14 @@ class C03(Check):
         for k in range(1, 3):
             for ids in itertools.product(range(len(ATOMS)), repeat=k):
                 out.append({"host": "method", "atoms": list(ids)})
+        for ids in [(i,) for i in range(len(ATOMS))] + [(i, j) for i in (0, 1, 3, 6, 10) for j in (1, 2, 4, 5, 12, 16)]:
+            out.append({"host": "siblings", "atoms": list(ids)})
+        noret = [i for i in range(len(ATOMS)) if "return" not in ATOMS[i]]
+        for ids in [(i,) for i in noret] + [(i, j) for i in (0, 1, 2, 4, 6, 10, 12, 16) for j in (0, 1, 2, 4, 6, 10, 12, 16)]:
+            out.append({"host": "module", "atoms": list(ids)})
+        for v in (0, 1, 2):
+            for ids in [(i,) for i in noret] + [(10, j) for j in noret] + [(i, 10) for i in noret]:
+                out.append({"host": "flat%d" % v, "atoms": list(ids)})
         return out
 
     def setup_worker(self):
@@ -286,7 +359,9 @@ class C03(Check):
         regs = regions(src, ids, host)
         for ri, (kind, start, end, feats) in enumerate(regs):
             if kind == "stmts":
-                if host == "function":
+                if host in ("siblings", "module") or host.startswith("flat"):
+                    variants = [("method", dict(similar=True)), ("method", dict(similar=False))]
+                elif host == "function":
                     variants = [("method", dict(similar=s, global_=g)) for s in (False, True) for g in (False, True)]
                 else:
                     variants = [("method", dict(similar=False)), ("method", dict(similar=True)), ("method", dict(global_=True)),
@@ -306,7 +381,10 @@ class C03(Check):
                     new = ctx.tree().get("xm.py")
                 finally:
                     ctx.close()
-                f2 = sorted(set(feats + ["host:" + host, "what:" + what] + ["opt:%s=%s" % kv for kv in sorted(opts.items())]))
+                hfeats = ["host:module-flat", "input:" + host[-1]] if host.startswith("flat") else ["host:" + host]
+                if host == "module" or host.startswith("flat"):
+                    hfeats.append("module-level-host")
+                f2 = sorted(set(feats + hfeats + ["what:" + what] + ["opt:%s=%s" % kv for kv in sorted(opts.items())]))
                 detail = {"source": src, "region": src[start:end], "start": start, "end": end, "refactoring": what, "options": opts}
                 mk = "%s/%s" % (what, kind)
                 res["mech"][mk] = res["mech"].get(mk, 0) + 1
